@@ -165,8 +165,11 @@ def _derive(d, kind, arg):
   if kind == 'noneable':
     if d.get('noneable'):
       d.pop('noneable')
+      d.pop('ctor_noneable', None)
     else:
       d['noneable'] = True
+      if d['t'] == 'union' and arg % 2:
+        d['ctor_noneable'] = True       # Union(..., is_noneable=True) instead of .noneable()
     return d
   if kind == 'default':
     if 'default' in d:
